@@ -33,7 +33,8 @@ REQUIRED_COUNTERS = {'c19_states_with_integration_data': 200,
                      'c19_child_titles_checked': 50,
                      'c19_decline_cleanups_checked': 5,
                      'c19_merge_cleanups_checked': 10,
-                     'c19_redirect_comparisons': 30}
+                     'c19_redirect_comparisons': 30,
+                     'c19_declined_parent_redirect_comparisons': 5}
 SHARD_TIMEOUT = {'quick': 900, 'thorough': 5400}
 MONITORS = [monitors.c19_one_to_one]
 
@@ -54,8 +55,12 @@ def plan(tier, seed):
     return [{} for _ in range(16)]
 
 
-def once(world, ev):
+def once(world, ev, decline=None):
     def child():
+        if decline is not None:
+            # the author closes the pull request; the webhook for that is
+            # NOT delivered (lost, or the server was down)
+            world.a_decline(decline)
         rec = world.run(ev[0], ev[1], record=False)
         world.drain()
         return {'status': rec['status'], 'd': reeval.state_digest(world)}
@@ -118,6 +123,50 @@ def redirects(world, acc):
                             base['status']})
 
 
+def declined_redirects(world, acc):
+    """the parent is declined but the event for that never arrives; the next
+    event is one on an integration pull request: it must do what the event
+    on the parent would have done (decline the children, delete the
+    branches)"""
+    snap = world.snapshot()
+    for p in snap.prs:
+        if p['author'] == ROBOT or p['state'] != 'OPEN':
+            continue
+        if len([q for q in snap.prs if q['src'] == p['src'] and
+                q['author'] != ROBOT and q['state'] == 'OPEN']) > 1:
+            continue
+        kids = [k for k in snap.prs if k['author'] == ROBOT and
+                k['state'] == 'OPEN' and k['src'].startswith('w/') and
+                k['src'].endswith('/' + p['src'])]
+        if not kids:
+            continue
+        base = once(world, ('pr', p['id']), decline=p['id'])
+        if 'inconclusive' in base:
+            acc.count('c19_children_inconclusive')
+            continue
+        for k in kids:
+            r = once(world, ('pr', k['id']), decline=p['id'])
+            if 'inconclusive' in r:
+                acc.count('c19_children_inconclusive')
+                continue
+            acc.evals += 1
+            acc.count('c19_declined_parent_redirect_comparisons')
+            acc.nontrivial('redirect|child-pr-of-declined-parent|%s'
+                           % base['status'])
+            d = reeval.diff_digest(base['d'], r['d'])
+            if r['status'] != base['status'] or d:
+                acc.violation(
+                    'event-on-child-pr-of-declined-parent-differs-from-'
+                    'event-on-parent',
+                    'PR #%d declined (event not delivered): event on the '
+                    'parent -> %s; event on integration PR #%d -> %s; state '
+                    'difference %s' % (p['id'], base['status'], k['id'],
+                                       r['status'], str(d)[:300]),
+                    {'config': world.config(), 'history': world.history,
+                     'parent': p['id'], 'alt': ['pr', k['id']],
+                     'declined': p['id']})
+
+
 def run_shard(spec, acc):
     runner.quiet()
     rng = random.Random('c19-%s-%s' % (spec['seed'], spec['shard']))
@@ -153,7 +202,9 @@ def run_shard(spec, acc):
                 op(g)
             g.walk(jobs // 2)
             redirects(world, acc)
+            declined_redirects(world, acc)
             g.walk(jobs)
+            declined_redirects(world, acc)
             # finish: decline or merge what is left
             for p in list(g.prs):
                 if rng.random() < 0.5:
@@ -185,6 +236,9 @@ def replay(witness, acc):
         for step in witness['history']:
             world.apply(step)
             world.drain()
-        redirects(world, acc)
+        if witness.get('declined'):
+            declined_redirects(world, acc)
+        else:
+            redirects(world, acc)
     finally:
         world.close()
